@@ -211,12 +211,18 @@ def check_cli(case, ev, d):
     with open(fn, "wb") as fh:
         fh.write(src.encode("utf-8"))
     argv = [fn] + sum((["--var", "%s=%s" % kv] for kv in vars_.items()), [])
-    def cli(args):
+    def cli(args, stdin=None):
         raw = io.BytesIO()
         out = io.TextIOWrapper(raw, encoding="utf-8", newline="")
+        old_stdin = sys.stdin
         try:
+            if stdin is not None:
+                sys.stdin = io.StringIO(stdin)
             with contextlib.redirect_stdout(out), contextlib.redirect_stderr(io.StringIO()):
-                cmd.cmdline(args)
+                try:
+                    cmd.cmdline(args)
+                finally:
+                    sys.stdin = old_stdin
             out.flush()
             return ("ok", raw.getvalue())
         except SystemExit:
@@ -243,6 +249,18 @@ def check_cli(case, ev, d):
             raise Failure(case, "mako-render --output-encoding utf-8 printed %r, expected %r" % (gote, ref) + tag, "P7-output-encoding")
         if got2 != ref:
             raise Failure(case, "mako-render --output-file --output-encoding utf-8 wrote %r, expected %r" % (got2, ref) + tag, "P7-output-file")
+        # the template from a file and from standard input, in output encodings other than UTF-8: the bytes written are the
+        # bytes Template(text, output_encoding=..).render() returns
+        for enc in ("utf-16", "iso-8859-1", "cp1251"):
+            try:
+                want = ("ok", Template(src, uri="/c08clie_%d_%s.html" % (k, enc.replace("-", "")), output_encoding=enc).render(**vars_))
+            except UnicodeEncodeError:
+                continue
+            varargs = argv[1:]
+            for how, g in (("file", cli(argv + ["--output-encoding", enc])), ("stdin", cli(["-"] + varargs + ["--output-encoding", enc], stdin=src))):
+                if g != want:
+                    raise Failure(case, "mako-render (%s) --output-encoding %s wrote %r, Template.render gives %r" % (how, enc, g, want) + tag,
+                                  "P7-output-encoding:" + how)
     elif got[0] == "ok":
         raise Failure(case, "Template(text) raises %s but mako-render succeeded: %r" % (ref[1], got) + tag, "P7-no-error")
     ev.case(key=src, nontrivial=any(ord(c) > 127 for c in src) and "<%def" in src, labels=("cli", "outcome:" + ref[0]))
@@ -300,6 +318,21 @@ def namespace_sets(k):
         entry = "/c08s_%d_%d_entry.html" % (k, variant)
         T[entry] = "".join(tags) + body
         sets.append({"templates": T, "entry": entry, "ctx": {"x": "x"}})
+    # nested defs whose argument defaults (positional, keyword-only, both) read context names: whatever order the names of a
+    # scope are iterated in, the names are fetched before the defs that use them are declared
+    for variant in range(2):
+        names = [["alpha", "beta", "gamma", "delta"], ["q%d" % i for i in range(6)]][variant]
+        ctx = {n: "v%d" % i for i, n in enumerate(names)}
+        defs, calls, exp = [], [], []
+        for i, n in enumerate(names):
+            sig = ["*r, k=%s.upper()" % n, "a=%s * 2" % n, "a=%s, *r, k=len(%s)" % (n, n)][(i + variant + k) % 3]
+            defs.append('<%%def name="f%d(%s)">%d:${locals().get("a", "-")}:${locals().get("k", "-")}</%%def>' % (i, sig, i))
+            calls.append("${f%d()}" % i)
+            v = ctx[n]
+            exp.append("%d:%s:%s" % (i, {0: "-", 1: v * 2, 2: v}[(i + variant + k) % 3], {0: v.upper(), 1: "-", 2: len(v)}[(i + variant + k) % 3]))
+        entry = "/c08d_%d_%d_entry.html" % (k, variant)
+        T = {entry: '<%def name="outer()">' + "".join(defs) + "[" + "|".join(calls) + "]</%def>${outer()}"}
+        sets.append({"templates": T, "entry": entry, "ctx": ctx, "expected": ["ok", "[" + "|".join(exp) + "]"]})
     return sets
 
 
@@ -315,6 +348,11 @@ def run_children(batch, d, ev, fails):
         for u, src in st_["templates"].items():
             lk.put_string(u, src)
         expect_sets.append(list(_run(lambda: lk.get_template(st_["entry"]).render_unicode(**st_["ctx"]))))
+        if st_.get("expected") and expect_sets[-1] != st_["expected"]:
+            f = Failure({"part": "nsset", "set": st_, "seed": "parent"}, "in the parent process the set renders %r, by construction %r\n%s" % (
+                expect_sets[-1], st_["expected"], st_["templates"][st_["entry"]]), "child-differs:defaults-order")
+            fails.setdefault(f.key, f)
+            expect_sets[-1] = st_["expected"]
     job = os.path.join(d, "job.json")
     with open(job, "w") as fh:
         json.dump({"items": batch, "moddir": os.path.join(d, "mod"), "sets": sets}, fh)
@@ -544,6 +582,8 @@ def replay(case):
                     outs.add(r.stdout.strip())
                 if len(outs) > 1:
                     return Failure(case, "rendering depends on PYTHONHASHSEED: %r" % sorted(outs), "child-differs:namespace-imports")
+                if st_.get("expected") and outs != {st_["expected"][1]}:
+                    return Failure(case, "rendered %r under every seed, by construction %r" % (sorted(outs)[0][-300:], st_["expected"][1]), "child-differs:defaults-order")
             elif part == "child":
                 batch = []
                 prog_src = case["src"]
